@@ -1,3 +1,3 @@
-CONSTANTS Want = {"C40_SelectExact", "C40_CreationOrder", "C40_DfsOrder", "C40_Truncation", "C40_DomainCovered", "C40_TraceAccepted"} MinPop = 2 MinDepth = 2
+CONSTANTS Want = {"C40_SelectExact", "C40_ExactSelection", "C40_CreationOrder", "C40_DfsOrder", "C40_Truncation", "C40_DomainCovered", "C40_TraceAccepted"} MinPop = 2 MinDepth = 2 MinHistories = 20
 SPECIFICATION TSpec
 CHECK_DEADLOCK FALSE
